@@ -48,7 +48,8 @@ func (h *H) makeEncPair(lenA, lenB int) encPair {
 func insiderForgeEnc(r *SplitMix, p encPair) ([]byte, string) {
 	o, err := refOpenEnc(p.wireA, p.insiderSk)
 	if err != nil {
-		fatal("insider cannot open the genuine message: %v", err)
+		precondition("insider cannot open the genuine message: %v", err)
+		return p.wireA, "none"
 	}
 	objs, _ := splitObjects(p.wireA)
 	hdrNode, _, _ := mpParse(objs[0])
@@ -274,8 +275,11 @@ type scPair struct {
 	wireB      []byte
 }
 
-func (h *H) makeScPair(lenA, lenB int) scPair {
-	p := scPair{signerSk: h.randSigKey(), victimSk: h.randBoxSk(), insiderSk: h.randBoxSk(), symK: h.rng.Bytes(32), symID: h.rng.Bytes(16)}
+func (h *H) makeScPair(lenA, lenB int) scPair { return h.makeScPairS(lenA, lenB, h.randSigKey()) }
+
+// signer nil: an anonymous sender
+func (h *H) makeScPairS(lenA, lenB int, signer []byte) scPair {
+	p := scPair{signerSk: signer, victimSk: h.randBoxSk(), insiderSk: h.randBoxSk(), symK: h.rng.Bytes(32), symID: h.rng.Bytes(16)}
 	s := scSpec{signer: p.signerSk, bsk: [][]byte{p.victimSk, p.insiderSk}, symk: [][]byte{p.symK}, symid: [][]byte{p.symID}}
 	p.msgA, p.msgB = h.rng.Bytes(lenA), h.rng.Bytes(lenB)
 	var err error
@@ -297,7 +301,8 @@ func insiderForgeSc(r *SplitMix, p scPair) ([]byte, string) {
 	o, err := refOpenSc(p.wireA, p.insiderSk, nil, nil)
 	refHeaderOnly = false
 	if err != nil {
-		fatal("insider cannot open the header of the genuine signcrypted message: %v", err)
+		precondition("insider cannot open the header of the genuine signcrypted message: %v", err)
+		return p.wireA, "none"
 	}
 	objs, _ := splitObjects(p.wireA)
 	hdrNode, _, _ := mpParse(objs[0])
@@ -312,8 +317,9 @@ func insiderForgeSc(r *SplitMix, p scPair) ([]byte, string) {
 		nd, _, _ := mpParse(ob)
 		final := nd.Arr[1].B
 		att, ok := secretbox.Open(nil, nd.Arr[0].Bytes, hashNonce(hh, final, uint64(n)), k32(o.payloadKey))
-		if !ok {
-			fatal("insider cannot open packet %d", n)
+		if !ok || len(att) < 64 {
+			precondition("insider cannot open packet %d", n)
+			return p.wireA, "none"
 		}
 		pk = append(pk, pkt{final, att[:64], att[64:]})
 	}
@@ -386,7 +392,8 @@ func insiderSwapSc(p scPair) []byte {
 	o, err := refOpenSc(p.wireA, p.insiderSk, nil, nil)
 	refHeaderOnly = false
 	if err != nil {
-		fatal("insider cannot open the header of the genuine signcrypted message: %v", err)
+		precondition("insider cannot open the header of the genuine signcrypted message: %v", err)
+		return p.wireA
 	}
 	objs, _ := splitObjects(p.wireA)
 	hdrNode, _, _ := mpParse(objs[0])
@@ -396,7 +403,8 @@ func insiderSwapSc(p scPair) []byte {
 		nd, _, _ := mpParse(objs[1+n])
 		a, ok := secretbox.Open(nil, nd.Arr[0].Bytes, hashNonce(hh, false, uint64(n)), k32(o.payloadKey))
 		if !ok {
-			fatal("insider cannot open packet %d", n)
+			precondition("insider cannot open packet %d", n)
+			return p.wireA
 		}
 		att = append(att, a)
 	}
@@ -416,6 +424,15 @@ func genScOpenMutations(h *H, n int) {
 	}
 	for i := 0; i < nbig; i++ {
 		p := h.makeScPair(2*mib+100+h.rng.Intn(50), 10)
+		subs, stags := packetSubsequences(p.wireA)
+		for k, input := range subs {
+			if h.tier != "thorough" && k%3 != i%3 {
+				continue
+			}
+			h.tag("mut-big:" + stags[k])
+			h.Run(Case{Op: "sc_open", A: map[string]string{"keys": ringKeysStr([][]byte{p.victimSk}), "signers": blist([][]byte{p.signerSk[32:]}), "resolver": "none", "input": hx(input),
+				"buf": "4096", "truth": blist([][]byte{p.msgA, p.msgB}), "honest": hx(p.signerSk[32:]), "mut": stags[k]}})
+		}
 		h.tag("mut:insider-swap-positions")
 		h.Run(Case{Op: "sc_open", A: map[string]string{"keys": ringKeysStr([][]byte{p.victimSk}), "signers": blist([][]byte{p.signerSk[32:]}), "resolver": "none", "input": hx(insiderSwapSc(p)),
 			"buf": "4096", "truth": blist([][]byte{p.msgA, p.msgB}), "honest": hx(p.signerSk[32:]), "mut": "insider-swap-positions"}})
@@ -425,6 +442,30 @@ func genScOpenMutations(h *H, n int) {
 			h.Run(Case{Op: "sc_open", A: map[string]string{"keys": ringKeysStr([][]byte{p.victimSk}), "signers": blist([][]byte{p.signerSk[32:]}), "resolver": "none", "input": hx(input),
 				"buf": "4096", "truth": blist([][]byte{p.msgA, p.msgB}), "honest": hx(p.signerSk[32:]), "mut": tags[k]}})
 		}
+	}
+	// anonymous senders: integrity against parties who lack the payload key. Whatever is accepted under
+	// the header of a genuine anonymous message is a prefix of that message, clean end only at its end:
+	// every proper packet subsequence of a three-packet message (last packet re-flagged final), and
+	// key-less mutations of short ones
+	for i := 0; i < nbig; i++ {
+		p := h.makeScPairS(2*mib+100+h.rng.Intn(50), 10, nil)
+		cuts, tags := packetSubsequences(p.wireA)
+		for k, input := range cuts {
+			h.tag("mut-big-anon:" + tags[k])
+			h.Run(Case{Op: "sc_open", A: map[string]string{"keys": ringKeysStr([][]byte{p.victimSk}), "signers": "_", "resolver": "none", "input": hx(input),
+				"buf": "4096", "truth": blist([][]byte{p.msgA, p.msgB}), "honest": "anon", "mut": tags[k]}})
+		}
+	}
+	for i := 0; i < n/8; i++ {
+		p := h.makeScPairS(1+h.rng.Intn(300), h.rng.Intn(300), nil)
+		input, mut := mutateWire(h.rng, p.wireA, p.wireB)
+		h.tag("mut-anon:" + mut)
+		keys, resolver := ringKeysStr([][]byte{p.victimSk}), "none"
+		if h.rng.Intn(4) == 0 {
+			keys, resolver = "_", hx(p.symID)+":"+hx(p.symK)
+		}
+		h.Run(Case{Op: "sc_open", A: map[string]string{"keys": keys, "signers": "_", "resolver": resolver, "input": hx(input),
+			"buf": strconv.Itoa([]int{1, 2, 31, 32, 33, 43, 4096}[h.rng.Intn(7)]), "truth": blist([][]byte{p.msgA, p.msgB}), "honest": "anon", "mut": mut}})
 	}
 	for i := 0; i < n; i++ {
 		la, lb := 1+h.rng.Intn(300), h.rng.Intn(300)
@@ -466,7 +507,7 @@ func init() {
 		},
 	}
 	campaigns["C04"] = campaign{
-		rule: "cases: byte strings fed to NewSigncryptOpenStream/SigncryptOpen under the victim's keyring (box key or resolver), derived from two genuine messages by the same honest signer by structure-aware mutation as in C02 and by insider forgeries of a co-recipient who decrypts with the genuine payload key and re-encrypts modified plaintext, flipped final flags, renumbered/duplicated chunks, zero signatures, or a new header naming the honest signer with transplanted genuine signatures. Ground truth: bytes released under the honest signer's name are a prefix of one of the two plaintexts, clean end only at its end.",
+		rule: "cases: byte strings fed to NewSigncryptOpenStream/SigncryptOpen under the victim's keyring (box key or resolver), derived from two genuine messages by the same honest signer by structure-aware mutation as in C02 and by insider forgeries of a co-recipient who decrypts with the genuine payload key and re-encrypts modified plaintext, flipped final flags, renumbered/duplicated chunks, zero signatures, or a new header naming the honest signer with transplanted genuine signatures. Ground truth: bytes released under the honest signer's name are a prefix of one of the two plaintexts, clean end only at its end. Anonymous senders: key-less mutations of genuine anonymous messages and every proper packet subsequence of a three-packet message with the last packet re-flagged final; whatever is accepted is a prefix of the genuine plaintext.",
 		gen: func(h *H) {
 			n := 400
 			if h.tier == "thorough" {
